@@ -66,7 +66,7 @@ func (g *gen) docDecls() {
 			g.feat("var_decls")
 			n1, n2, n3 := g.styled(g.flip("exp")), g.styled(g.flip("exp")), g.styled(false)
 			t := g.anyType(2)
-			sb.WriteString(g.doc(n1) + "var " + n1 + ", " + n2 + " = " + g.val(tInt, 1) + ", " + g.val(tString, 1) + "\n\n")
+			sb.WriteString(g.doc(n1) + "var " + n1 + ", " + n2 + " = " + g.simple(tInt) + ", " + g.simple(tString) + "\n\n")
 			sb.WriteString(g.doc(n3) + "var " + n3 + " " + g.ts(t) + "\n\n")
 			sb.WriteString(g.doc("_") + "var _ = " + n3 + "\n\n")
 			sb.WriteString("var (\n\t" + g.doc("_") + "\t_ " + g.ts(g.anyType(1)) + "\n\t_, _ = " + n1 + ", " + n2 + "\n)")
